@@ -18,6 +18,7 @@ type StrV struct {
 	B     []*Term // bv8, capacity (nil while lazy: see R)
 	R     *Rope   // optional token structure: string == join(tokens, "/"), every piece is '/'-free
 	EscOf *StrV   // set on the result of jsonpointer.Escape: the string it is the escaped form of
+	Plain  bool   // the string holds neither '~' nor '/' (e.g. a mangled name): jsonpointer Escape / Unescape leave it as it is
 	UEscOf *StrV  // set on url-escaped pieces ((*url.URL).String of a fragment): the string it is the escaped form of
 	Ch    *strChoice // lazy merge: the string is A under C, else B (B and R are nil then); forced by fl()
 }
@@ -119,7 +120,7 @@ func fl(s StrV) StrV {
 		}
 		for _, p := range tok {
 			if first {
-				acc, first = p, false
+				acc, first = fl(p), false
 			} else {
 				acc = flatConcat(acc, p)
 			}
@@ -139,7 +140,7 @@ func tokFlat(tok []StrV) StrV {
 	acc := flatC("")
 	for i, p := range tok {
 		if i == 0 {
-			acc = p
+			acc = fl(p)
 		} else {
 			acc = flatConcat(acc, p)
 		}
@@ -236,6 +237,7 @@ type Obj struct {
 	Perm   bool        // candidates are a symbolic permutation of the live entries (keys pairwise distinct)
 	Cur    []CurAlt
 	Epoch  int // allocation order (for freeze)
+	CapInexact bool // make() with a symbolic capacity: the modelled capacity is an upper bound, not the real one
 }
 
 func StrC(s string) StrV {
@@ -250,6 +252,9 @@ func (s StrV) Concrete() (string, bool) {
 	}
 	s = fl(s)
 	n := int(s.Len.val)
+	if len(s.B) < n {
+		panic(fmt.Sprintf("ill-formed string value: len %d, %d bytes, rope %v, choice %v, escof %v", n, len(s.B), s.R != nil, s.Ch != nil, s.EscOf != nil))
+	}
 	out := make([]byte, n)
 	for i := 0; i < n; i++ {
 		if !s.B[i].IsConst() {
@@ -366,7 +371,9 @@ func mergeV(c *Term, a, b Value) Value {
 		return IntV{Ite(c, x.T, b.(IntV).T)}
 	case StrV:
 		y := b.(StrV)
-		x, y = promoteConst(x), promoteConst(y)
+		if os.Getenv("SYMGO_NOPROMOTE") == "" {
+			x, y = promoteConst(x), promoteConst(y)
+		}
 		if (x.R != nil || x.Ch != nil) && (y.R != nil || y.Ch != nil) {
 			// keep structured strings apart (lazy merge), as a chain over the DISTINCT alternatives
 			var alts []strAlt
@@ -398,6 +405,14 @@ func mergeV(c *Term, a, b Value) Value {
 		return ArrayV{e}
 	case TupleV:
 		y := b.(TupleV)
+		if len(x.E) != len(y.E) {
+			// the "current entry" cell of a reflect map iterator before its first Next (empty) against a filled one: the
+			// cell is only read inside the loop body, right after it was filled
+			if len(x.E) == 0 {
+				return y
+			}
+			return x
+		}
 		e := make([]Value, len(x.E))
 		for i := range e {
 			e[i] = mergeV(c, x.E[i], y.E[i])
